@@ -6,6 +6,13 @@ class C19(diffprop.Spec):
     id = "C19"
     gen_targets = ("pmath",)
     counts = dict(quick=400, thorough=20000)
+    design_ref = "DESIGN.md §6 C19"
+    level_text = ("Lean 4 theorems (12) over the BitVec-64 definitions regenerated from pmath.go on every run (size-class arithmetic for every 64-bit int) and over a pool model "
+                  "(capacity >= request and exclusive hand-out for every Get/Put history, every pool size, with arbitrary foreign Puts and item loss); the pool model is tied to the real "
+                  "pool.Pool/pbytes/pbuffer by an acceptance check on generated histories, pmath by differential runs of the generated definitions. Proof level because the property's "
+                  "quantifier (all histories, all sizes up to the platform limit) is exactly what induction and bit-level lemmas cover and sampling cannot.")
+    level_note = ("Trusted: Lean kernel; axioms propext/Classical.choice/Quot.sound only; nvextract translator; Go harness + Lean driver; sync.Pool and make() modelled not verified; "
+                  "generic.go hand-modelled (its tie is sampled, not exhaustive); 64-bit int only.")
     technique = "Lean 4 proof over generated BitVec-64 size-class code + pool model; differential/acceptance tie on real pools"
     rule = ("pmath: every value within 3 of every power of two up to 2^63, -70..70, int extremes, plus random magnitudes; "
             "pool: random Get/Put histories (generic pool, pbytes, pbuffer) over 20 pool sizes with sizes/capacities drawn around "
